@@ -241,9 +241,9 @@ ExpItem(it, f, ea, st, X) ==
                    ELSE ba.st
              marker == X.o.tfn = "marker"
              body == IF marker THEN R(<<"<MARK:", it.name, ">">>, s3)
-                     ELSE IF it.name \notin DOMAIN X.lib
+                     ELSE IF Target(it.name, X.lib) = ""
                      THEN R(<<"[[:Template:", it.name, "]]">>, s3)
-                     ELSE Exp(IncludablePart(X.lib[it.name]), nf, ea \/ (it.name \in X.need /\ ~X.enwikt), s3, X)
+                     ELSE Exp(IncludablePart(X.lib[Target(it.name, X.lib)]), nf, ea \/ (Target(it.name, X.lib) \in X.need /\ ~X.enwikt), s3, X)
                           \* (core.py:1632-1643: expand_all, or the template needs pre-expansion and the
                           \*  context is not the English Wiktionary)
              t1 == AddNL(body.out)
